@@ -302,3 +302,21 @@ example :
     (iterAll (run c12Opts ops) (some 1)).1.map (fun ev => ev .particles) = [[.data 0 0, .data 0 1], [.data 2 0]] ∧
     (getitemInt (run c12Opts ops) 2).toOption.isNone = true ∧
     numEvents (run c12Opts ops) = numEvents (run c12Opts (ops.filter (fun op => !isReopen op))) := by decide
+
+/-- the error of an `Except` value, if any -/
+def errOf {α : Type} : Except Err α → Option Err
+  | .error e => some e
+  | .ok _ => none
+
+/-- outside the claim (`slice_range ≥ 1`): with `slice_range = 0` the first `__next__` loads an empty
+chunk and `np.min` of nothing raises `ValueError` — the model rejects in the same way, before any
+event is yielded -/
+theorem C12_slice_range_zero_raises :
+    (iterAll (run c12Opts c12Hist) (some 0)).1.length = 0 ∧ (iterAll (run c12Opts c12Hist) (some 0)).2 = Err.value ∧
+    (getitemSlice (run c12Opts c12Hist) (some 0) (some 0) (some 2) none).2 = Err.value := by decide
+
+/-- `FileGenerator([])` raises `StopIteration` in the constructor; `slice_range = 0` makes the first
+`self._file[0:0]` raise `IndexError` there (any share function; shown for the integer one) -/
+theorem C12_filegen_degenerate :
+    errOf (fgInit [] 3 (fun k n T => (k + 1) * T / n)) = some Err.stop ∧
+    errOf (fgInit [run c12Opts c12Hist] 0 (fun k n T => (k + 1) * T / n)) = some Err.index := by decide
